@@ -73,6 +73,7 @@ type Explorer struct {
 	knownLabels       map[string]bool
 	knownKept         map[string]int
 	unknownViolations int
+	firstViolation    time.Time
 }
 
 func (e *Explorer) Run() *HarnessResult {
@@ -141,6 +142,16 @@ func (e *Explorer) Run() *HarnessResult {
 					// enough witnesses: a violation is a definitive answer, stop exploring
 					e.stop = true
 				}
+				if e.unknownViolations > 0 && !e.spec.Twin {
+					// the verdict is already "violation"; keep looking for further distinct
+					// witnesses only for a bounded time (a breaking change can blow the path
+					// space up far beyond what the unchanged tree needs)
+					if e.firstViolation.IsZero() {
+						e.firstViolation = time.Now()
+					} else if time.Since(e.firstViolation) > violationLinger(e.spec.Tier) {
+						e.stop = true
+					}
+				}
 				if e.spec.MaxPaths > 0 && e.res.Paths >= e.spec.MaxPaths && len(e.queue) > 0 {
 					e.res.BudgetHit = true
 					e.res.Inconclusive = append(e.res.Inconclusive, fmt.Sprintf("path budget %d exhausted with %d prefixes pending", e.spec.MaxPaths, len(e.queue)))
@@ -171,6 +182,13 @@ func (e *Explorer) Run() *HarnessResult {
 	}
 	e.res.Wall = time.Since(start)
 	return e.res
+}
+
+func violationLinger(tier string) time.Duration {
+	if tier == "thorough" {
+		return 120 * time.Second
+	}
+	return 20 * time.Second
 }
 
 func (e *Explorer) absorb(m *Machine, pr *PathResult, rng *rand.Rand) {
